@@ -38,8 +38,17 @@ type scenario struct {
 	Inactive   [3]bool // never activated in x/oracle
 	Delegate   []deleg
 	Undelegate []deleg
-	Tokens     [3]int64 // expected tokens afterwards
-	Bonded     [3]bool  // expected bonded status afterwards
+	// Late* happen in the SAME block as the evaluation (after the settling block of the base state): the
+	// validator set changes in the x/staking end blocker of the evaluated block itself.
+	LateDelegate   []deleg
+	LateUndelegate []deleg
+	LateJail       []int    // x/staking Keeper.Jail, what x/slashing / x/evidence call from their BeginBlocker
+	Tokens         [3]int64 // expected tokens at the end of the evaluated block
+	Bonded         [3]bool  // expected bonded status at the end of the evaluated block (after its validator-set update)
+}
+
+func (sc scenario) late() bool {
+	return len(sc.LateDelegate)+len(sc.LateUndelegate)+len(sc.LateJail) > 0
 }
 
 var scenarios = []scenario{
@@ -61,6 +70,16 @@ var scenarios = []scenario{
 		Inactive:   [3]bool{true, false, false},
 		Undelegate: []deleg{{"missed", 1, 1}},
 		Tokens:     [3]int64{100000000, 999999, 99999999}, Bonded: [3]bool{true, false, true}},
+	{Name: "L1-val1-enters-in-block", Desc: "validator 1 was unbonded (999999 tokens, settled); IN THE EVALUATED BLOCK 100000000uband are delegated to it, so it enters the bonded set in this block's validator-set update",
+		Undelegate:   []deleg{{"missed", 1, 1}},
+		LateDelegate: []deleg{{"feepayer", 1, 100000000}},
+		Tokens:       [3]int64{100000000, 100999999, 99999999}, Bonded: [3]bool{true, true, true}},
+	{Name: "L2-val1-leaves-in-block", Desc: "genesis powers; IN THE EVALUATED BLOCK 1uband is undelegated from validator 1 (999999 left), so it leaves the bonded set in this block's validator-set update",
+		LateUndelegate: []deleg{{"missed", 1, 1}},
+		Tokens:         [3]int64{100000000, 999999, 99999999}, Bonded: [3]bool{true, false, true}},
+	{Name: "L3-val2-jailed-in-block", Desc: "genesis powers; IN THE EVALUATED BLOCK validator 2 is jailed (x/staking Keeper.Jail as called by x/slashing / x/evidence), so it leaves the bonded set in this block's validator-set update",
+		LateJail: []int{2},
+		Tokens:   [3]int64{100000000, 1000000, 99999999}, Bonded: [3]bool{true, true, false}},
 }
 
 func scenarioByName(n string) scenario {
@@ -111,6 +130,7 @@ func worldPairs(quick bool) (env, hist []pair) {
 			{"S2-val1-unbonded", "0.30"}, {"S2-val1-unbonded", "1"},
 			{"S3-equal", "0.333333333333333333"}, {"S3-equal", "0.666666666666666667"},
 			{"S4-whale", "0.05"}, {"S4-whale", "0.666666666666666667"},
+			{"L1-val1-enters-in-block", "0.666666666666666667"}, {"L2-val1-leaves-in-block", "0.30"}, {"L3-val2-jailed-in-block", "0.5"},
 		}
 		hist = []pair{{"S0-genesis", "0.30"}, {"S3-equal", "0.666666666666666667"}}
 		return
@@ -187,9 +207,31 @@ func buildBase(w *engine.World, sc scenario, quorum string) *base {
 		engine.Fatal3("C06 base state %s/%s: block halted: %s", sc.Name, quorum, br.Halt)
 	}
 	k.SetCurrentFeeds(ctx, []feedstypes.Feed{feedstypes.NewFeed(feed1, 1, interval1), feedstypes.NewFeed(feed2, 1, interval2)})
+	// changes of the evaluated block itself (not settled by a block boundary)
+	for _, d := range sc.LateDelegate {
+		mustOK("late delegate", w.Tx(ctx, 0, stakingtypes.NewMsgDelegate(account(d.From).Address.String(),
+			bandtesting.Validators[d.Val].ValAddress.String(), sdk.NewInt64Coin("uband", d.Amt))))
+	}
+	for _, d := range sc.LateUndelegate {
+		mustOK("late undelegate", w.Tx(ctx, 0, stakingtypes.NewMsgUndelegate(account(d.From).Address.String(),
+			bandtesting.Validators[d.Val].ValAddress.String(), sdk.NewInt64Coin("uband", d.Amt))))
+	}
+	for _, v := range sc.LateJail {
+		if err := w.App.StakingKeeper.Jail(ctx, sdk.ConsAddress(bandtesting.Validators[v].PubKey.Address())); err != nil {
+			engine.Fatal3("C06 base state %s: jail validator %d: %v", sc.Name, v, err)
+		}
+	}
 
 	b := &base{sc: sc, quorum: quorum, ctx: ctx, bonded: new(big.Int)}
 	b.q, _ = new(big.Rat).SetString(quorum)
+	if sc.late() {
+		// the scenario's expectation describes the END of the evaluated block: verify it on a throw-away
+		// branch after the application's EndBlocker (x/staking's validator-set update included)
+		ctx = engine.Fork(ctx)
+		if _, halt := w.EndBlock(ctx); halt != "" {
+			engine.Fatal3("C06 base state %s/%s: EndBlocker halted: %s", sc.Name, quorum, halt)
+		}
+	}
 	for i, v := range bandtesting.Validators {
 		val, err := w.App.StakingKeeper.GetValidator(ctx, v.ValAddress)
 		if err != nil {
@@ -227,6 +269,14 @@ type WorldCase struct {
 	Desc     string      `json:"scenario_description,omitempty"`
 	Quorum   string      `json:"price_quorum"`
 	Items    [3]ItemJSON `json:"validator_items"`
+	Plans    [][]SubJSON `json:"validator_plans,omitempty"` // kind resub: per validator the submissions (block, status, price)
+}
+
+// SubJSON is one real MsgSubmitSignalPrices of a plan.
+type SubJSON struct {
+	Block  int    `json:"block"` // 0..3 = the blocks at now-61, now-60, now-1, now
+	Status string `json:"status"`
+	Price  uint64 `json:"price"`
 }
 
 func itemJSON(it item) ItemJSON {
@@ -260,6 +310,9 @@ type feedCheck struct {
 	V      verdict
 	FP     string
 	Detail string
+	// RefreshCounted: a counted validator's entry is fresh only because it RE-submitted the same (status, price);
+	// its first submission of that value is older than the interval
+	RefreshCounted bool
 	// ignoredMatters: a non-bonded / oracle-inactive validator holds a fresh price whose inclusion would
 	// change the admitted result, and the implementation conforms to the statement
 	UnbondedIgnored bool
@@ -446,11 +499,21 @@ func evalHist(w *engine.World, b *base, items [3]item) []feedCheck {
 func evalWorldCase(w *engine.World, c WorldCase) (outs []string, viols []engine.Violation) {
 	b := buildBase(w, scenarioByName(c.Scenario), c.Quorum)
 	var items [3]item
-	for i := range items {
-		items[i] = itemFromJSON(c.Items[i])
-	}
 	var fcs []feedCheck
-	if c.Kind == "hist" {
+	if c.Kind == kindResub {
+		var pl [3]plan
+		for i := range pl {
+			pl[i] = planFromJSON(c.Plans[i])
+		}
+		fcs = evalPlans(w, b, pl)
+	} else {
+		for i := range items {
+			items[i] = itemFromJSON(c.Items[i])
+		}
+	}
+	if c.Kind == kindResub {
+		// evaluated above
+	} else if c.Kind == "hist" {
 		fcs = evalHist(w, b, items)
 	} else {
 		fcs = evalEnv(w, b, items, c.Kind == kindDiscarded)
@@ -476,6 +539,7 @@ func runWorld(r *engine.Run, tally *engine.Tally, quick bool, deadline time.Time
 			w.Close()
 		}
 	}()
+	plans := resubPlans(quick)
 	run := func(kind string, pr pair, its []item) bool {
 		t0 := time.Now()
 		sc := scenarioByName(pr.Scenario)
@@ -485,6 +549,9 @@ func runWorld(r *engine.Run, tally *engine.Tally, quick bool, deadline time.Time
 			bases[i] = buildBase(w, sc, pr.Quorum)
 		}
 		n := len(its)
+		if kind == kindResub {
+			n = len(plans)
+		}
 		od := engine.Odometer{Sizes: []int{n, n, n}}
 		cs := make([]*counters, workers)
 		digs := make([][]int, workers)
@@ -494,9 +561,18 @@ func runWorld(r *engine.Run, tally *engine.Tally, quick bool, deadline time.Time
 		complete := engine.ParallelFor(od.Total(), workers, deadline, func(wk int, idx int64) {
 			c := cs[wk]
 			digs[wk] = od.Digits(idx, digs[wk])
-			items := [3]item{its[digs[wk][0]], its[digs[wk][1]], its[digs[wk][2]]}
+			var items [3]item
+			var pl [3]plan
 			var fcs []feedCheck
-			if kind == "hist" {
+			if kind == kindResub {
+				pl = [3]plan{plans[digs[wk][0]], plans[digs[wk][1]], plans[digs[wk][2]]}
+				fcs = evalPlans(worlds[wk], bases[wk], pl)
+			} else {
+				items = [3]item{its[digs[wk][0]], its[digs[wk][1]], its[digs[wk][2]]}
+			}
+			if kind == kindResub {
+				// evaluated above
+			} else if kind == "hist" {
 				fcs = evalHist(worlds[wk], bases[wk], items)
 			} else {
 				fcs = evalEnv(worlds[wk], bases[wk], items, kind == kindDiscarded)
@@ -526,6 +602,12 @@ func runWorld(r *engine.Run, tally *engine.Tally, quick bool, deadline time.Time
 				if fc.InactiveIgnored {
 					c.saw("world:inactive-validator-ignored")
 				}
+				if fc.RefreshCounted {
+					c.saw("resub:same-value-resubmission-counted-after-first-is-stale")
+				}
+				if sc.late() {
+					c.saw2("setchange:", fc.O.Status)
+				}
 				if len(fc.A.fresh) >= 2 {
 					for _, e := range fc.A.fresh[1:] {
 						if e.Price != fc.A.fresh[0].Price {
@@ -536,8 +618,12 @@ func runWorld(r *engine.Run, tally *engine.Tally, quick bool, deadline time.Time
 				if fc.FP != "" {
 					fc := fc
 					c.violate(idx, fc.FP, func() (any, []string, string) {
-						wc := WorldCase{Kind: kind, Scenario: sc.Name, Desc: sc.Desc, Quorum: pr.Quorum,
-							Items: [3]ItemJSON{itemJSON(items[0]), itemJSON(items[1]), itemJSON(items[2])}}
+						wc := WorldCase{Kind: kind, Scenario: sc.Name, Desc: sc.Desc, Quorum: pr.Quorum}
+						if kind == kindResub {
+							wc.Plans = [][]SubJSON{planJSON(pl[0]), planJSON(pl[1]), planJSON(pl[2])}
+						} else {
+							wc.Items = [3]ItemJSON{itemJSON(items[0]), itemJSON(items[1]), itemJSON(items[2])}
+						}
 						return wc, []string{kind}, fmt.Sprintf("block %d feed %s: %s", fc.Step, fc.Feed, fc.Detail)
 					})
 				}
@@ -546,8 +632,13 @@ func runWorld(r *engine.Run, tally *engine.Tally, quick bool, deadline time.Time
 				c.nontrivial++
 			}
 			if idx == od.Total()/2 {
-				tally.Sample(12, map[string]any{"layer": kind, "scenario": sc.Name, "quorum": pr.Quorum,
-					"items": []string{items[0].String(), items[1].String(), items[2].String()}})
+				if kind == kindResub {
+					tally.Sample(12, map[string]any{"layer": kind, "scenario": sc.Name, "quorum": pr.Quorum,
+						"plans": []string{pl[0].String(), pl[1].String(), pl[2].String()}})
+				} else {
+					tally.Sample(12, map[string]any{"layer": kind, "scenario": sc.Name, "quorum": pr.Quorum,
+						"items": []string{items[0].String(), items[1].String(), items[2].String()}})
+				}
 			}
 		})
 		ev, nt := mergeCounters(r, cs)
@@ -572,6 +663,11 @@ func runWorld(r *engine.Run, tally *engine.Tally, quick bool, deadline time.Time
 			return
 		}
 	}
+	for _, pr := range resubPairs(quick) {
+		if !run(kindResub, pr, nil) {
+			return
+		}
+	}
 	// world layer again with a parameter update (another quorum) executed on a discarded branch before the EndBlocker
 	dp := envPairs
 	if quick {
@@ -585,3 +681,166 @@ func runWorld(r *engine.Run, tally *engine.Tally, quick bool, deadline time.Time
 }
 
 const kindDiscarded = "world+discarded-params-update"
+
+// ---- resub layer: re-submissions through the real MsgSubmitSignalPrices ------------------------------------
+
+const kindResub = "resub"
+
+// sub is one submission of a plan: in block Block (0..3 = times now-61, now-60, now-1, now) the validator sends
+// a real MsgSubmitSignalPrices carrying (Status, Price) for both feeds.
+type sub struct {
+	Block  int
+	Status int
+	Price  uint64
+}
+
+// plan is what one validator submits over the four blocks (at most one message per block; consecutive
+// submissions are >= 59 s apart, i.e. beyond the 30 s cooldown, so every one is accepted).
+type plan []sub
+
+func (p plan) String() string {
+	if len(p) == 0 {
+		return "absent"
+	}
+	var parts []string
+	for _, s := range p {
+		parts = append(parts, fmt.Sprintf("b%d:%s/%d", s.Block, stName[s.Status], s.Price))
+	}
+	return strings.Join(parts, ",")
+}
+
+func planJSON(p plan) []SubJSON {
+	out := []SubJSON{}
+	for _, s := range p {
+		out = append(out, SubJSON{Block: s.Block, Status: stName[s.Status], Price: s.Price})
+	}
+	return out
+}
+
+func planFromJSON(js []SubJSON) plan {
+	var p plan
+	for _, j := range js {
+		st := -1
+		for i, n := range stName {
+			if n == j.Status {
+				st = i
+			}
+		}
+		if st <= 0 || j.Block < 0 || j.Block > 3 {
+			panic(fmt.Sprintf("bad submission %+v", j))
+		}
+		p = append(p, sub{j.Block, st, j.Price})
+	}
+	return p
+}
+
+// resubPlans is the plan alphabet, simplest first.  Values: A1 = AVAILABLE/1, A2 = AVAILABLE/2, U = UNSUPPORTED/0.
+func resubPlans(quick bool) []plan {
+	type val struct {
+		st int
+		p  uint64
+	}
+	a1, a2, u := val{stAvailable, 1}, val{stAvailable, 2}, val{stUnsupported, 0}
+	one := func(b int, v val) plan { return plan{{b, v.st, v.p}} }
+	two := func(b1 int, v1 val, b2 int, v2 val) plan { return plan{{b1, v1.st, v1.p}, {b2, v2.st, v2.p}} }
+	if quick {
+		return []plan{
+			nil,
+			one(3, a1), one(3, a2), one(3, u), one(0, a1), one(1, a2),
+			two(0, a1, 2, a1), two(0, a1, 2, a2), two(0, u, 2, u), two(0, u, 2, a1),
+			two(0, a2, 3, a2), two(0, a2, 3, a1), two(0, a1, 3, u),
+			two(1, a1, 3, a1), two(1, a2, 3, a1), two(1, u, 3, u), two(1, a2, 2, a2),
+		}
+	}
+	vals := []val{a1, a2, u}
+	ps := []plan{nil}
+	for b := 3; b >= 0; b-- {
+		for _, v := range vals {
+			ps = append(ps, one(b, v))
+		}
+	}
+	for _, bb := range [][2]int{{0, 2}, {0, 3}, {1, 3}} {
+		for _, v1 := range vals {
+			for _, v2 := range vals {
+				ps = append(ps, two(bb[0], v1, bb[1], v2))
+			}
+		}
+	}
+	return ps
+}
+
+func resubPairs(quick bool) []pair {
+	if quick {
+		return []pair{{"S0-genesis", "0.30"}, {"S3-equal", "0.666666666666666667"}}
+	}
+	return []pair{{"S0-genesis", "0.30"}, {"S0-genesis", "1"}, {"S3-equal", "0.333333333333333333"}, {"S3-equal", "0.666666666666666667"}, {"S4-whale", "0.666666666666666667"}}
+}
+
+func resubBoundText(quick bool) string {
+	var ps []string
+	for _, p := range resubPlans(quick) {
+		ps = append(ps, p.String())
+	}
+	return fmt.Sprintf("resub: all triples of per-validator submission plans(%d)=%v (bK = real MsgSubmitSignalPrices in block K of the four blocks at now-61, now-60, now-1, now; a second submission repeats or changes the value) for (scenario,quorum) in %v, both feeds checked at the end of each block",
+		len(ps), ps, resubPairs(quick))
+}
+
+// evalPlans: every validator follows its plan through real transactions; the reference holds, per validator,
+// the LATEST accepted submission stamped with the time of the block that carried it.
+func evalPlans(w *engine.World, b *base, plans [3]plan) []feedCheck {
+	c := engine.Fork(b.ctx)
+	var held [3]Entry
+	var firstTS [3]int64 // time of the first submission of the currently held (status, price)
+	for v := 0; v < 3; v++ {
+		held[v] = Entry{Status: stAbsent, Power: b.tokens[v]}
+	}
+	dts := []time.Duration{time.Second, time.Duration(interval1-1) * time.Second, time.Second}
+	var out []feedCheck
+	for step := 0; step < 4; step++ {
+		now := c.BlockTime().Unix()
+		for v := 0; v < 3; v++ {
+			for _, s := range plans[v] {
+				if s.Block != step {
+					continue
+				}
+				it := item{Status: s.Status, Price: s.Price}
+				msg := feedstypes.NewMsgSubmitSignalPrices(bandtesting.Validators[v].ValAddress.String(), now,
+					[]feedstypes.SignalPrice{signalPriceOf(it, feed1), signalPriceOf(it, feed2)})
+				res := w.Tx(c, 0, msg)
+				if res.OK() {
+					if held[v].Status != s.Status || held[v].Price != s.Price {
+						firstTS[v] = now
+					}
+					held[v] = Entry{Status: s.Status, Power: b.tokens[v], Price: s.Price, TS: now}
+				} else if b.sc.Bonded[v] && !b.sc.Inactive[v] {
+					engine.Fatal3("C06 resub: MsgSubmitSignalPrices of bonded, active validator %d in block %d rejected: %v", v, step, res.Err)
+				}
+			}
+		}
+		events, halt := w.EndBlock(c)
+		fcs := checkFeeds(w, b, c, events, halt, held, now, step)
+		for i := range fcs {
+			iv := interval1
+			if fcs[i].Feed == feed2 {
+				iv = interval2
+			}
+			for v := 0; v < 3; v++ {
+				if b.sc.Bonded[v] && !b.sc.Inactive[v] && held[v].Status != stAbsent && now-held[v].TS <= iv && now-firstTS[v] > iv {
+					fcs[i].RefreshCounted = true
+				}
+			}
+		}
+		out = append(out, fcs...)
+		if halt != "" {
+			return out
+		}
+		if step < len(dts) {
+			var h string
+			c, _, h = w.BeginBlock(c, 1, dts[step])
+			if h != "" {
+				engine.Fatal3("C06 resub: BeginBlocker halted: %s", h)
+			}
+		}
+	}
+	return out
+}
